@@ -179,7 +179,7 @@ fn late_originals_case(seed: u64, trace: bool) -> super::CaseOut {
 /// Stream state recycling: tiny stream-count limits and many short streams one after the other,
 /// half of them stopped or reset, so that every new stream inherits the freed state of an
 /// earlier one.
-fn recycle_case(seed: u64, trace: bool) -> super::CaseOut {
+pub(super) fn recycle_case(seed: u64, trace: bool, own: bool) -> super::CaseOut {
     let mut r = crate::util::Rng::new(seed ^ 0xC01C);
     let mut k = Knobs::default();
     k.ops = false;
@@ -224,7 +224,7 @@ fn recycle_case(seed: u64, trace: bool) -> super::CaseOut {
     let mut out = base_out(&h, &mut ran, trace);
     // a stream whose data can never be read although nobody stopped or reset it is a delivery
     // failure, whatever else it is
-    for v in out.viol.iter_mut() {
+    for v in out.viol.iter_mut().filter(|_| own) {
         if v.prop == "C11" && v.msg.contains("read() -> ClosedStream before any terminal outcome") {
             v.prop = "C01";
             v.msg = format!("written data is unobtainable: {}", v.msg);
@@ -247,7 +247,7 @@ pub fn run(ctx: &Ctx) -> i32 {
     let g = Group { name: "late-originals", cases: ctx.tier.pick(1200, 60_000), budget_s: ctx.tier.pick(20.0, 200.0), exhaustive: false };
     run_group(ctx, &mut rep, &g, |_, seed, trace| late_originals_case(seed, trace));
     let g = Group { name: "recycle", cases: ctx.tier.pick(800, 40_000), budget_s: ctx.tier.pick(15.0, 150.0), exhaustive: false };
-    run_group(ctx, &mut rep, &g, |_, seed, trace| recycle_case(seed, trace));
+    run_group(ctx, &mut rep, &g, |_, seed, trace| recycle_case(seed, trace, true));
     // data written before the handshake completes (0-RTT, across Retry and rejection): the C17
     // worlds, where a byte the ledger never sees delivered, or sees twice, is a C01 failure too
     let g = Group { name: "early-data", cases: ctx.tier.pick(1500, 100_000), budget_s: ctx.tier.pick(10.0, 120.0), exhaustive: false };
